@@ -907,6 +907,59 @@ func ruleR059(c *Ctx) {
 				})
 			}
 		}
+		// the try child handed to a wrapper constructor: protected := panicToError(tryFunc), where the literal the
+		// constructor returns calls its parameter - that call is the evaluation of the try expression
+		ast.Inspect(gi.decl.Body, func(x ast.Node) bool {
+			call, ok := x.(*ast.CallExpr)
+			if !ok {
+				return true
+			}
+			cal := Callee(info, call)
+			if cal == nil || cal.Pkg() != gi.pkg.Types {
+				return true
+			}
+			hd := findFuncDecl(gi.pkg, cal)
+			if hd == nil || hd.Body == nil || hd.Type.Params == nil {
+				return true
+			}
+			pi := 0
+			for _, fl := range hd.Type.Params.List {
+				for _, nm := range fl.Names {
+					if pi < len(call.Args) {
+						arg := call.Args[pi]
+						isTryArg := false
+						if obj := gi.childObj(info, arg); obj != nil && gi.field[obj] == "TryCatch.Try" {
+							isTryArg = true
+						}
+						if id, ok := ast.Unparen(arg).(*ast.Ident); ok && tryAlias[info.ObjectOf(id)] {
+							isTryArg = true
+						}
+						if isTryArg {
+							pobj := info.Defs[nm]
+							ast.Inspect(hd.Body, func(y ast.Node) bool {
+								ic, ok := y.(*ast.CallExpr)
+								if !ok {
+									return true
+								}
+								if id, ok := ast.Unparen(ic.Fun).(*ast.Ident); ok && info.ObjectOf(id) == pobj {
+									n++
+									key := fmt.Sprintf("%s#try-evaluation[%d]", gname, n)
+									body := c.enclosingBody(ic)
+									if body != nil && c.startsWithRecoveringDefer(gi.pkg, body) {
+										c.OK(key, ic.Pos(), "the try expression is evaluated by the wrapper %s under a deferred function that calls recover()", cal.Name())
+									} else {
+										c.Violation(key, ic.Pos(), "the try expression is handed to %s, which evaluates it without a recover: a fault raised as a Go panic (recursion guard, host function) can not be handled by try/catch", cal.Name())
+									}
+								}
+								return true
+							})
+						}
+					}
+					pi++
+				}
+			}
+			return true
+		})
 		ast.Inspect(gi.decl.Body, func(x ast.Node) bool {
 			call, ok := x.(*ast.CallExpr)
 			if !ok {
